@@ -57,8 +57,8 @@ def cases(ctx):
     add("subjectAlternativeName", [], {"names": []})
     for n in (1, 2, 3):
         combos = list(itertools.product(names, repeat=n))
-        if n == 3 or (ctx.quick and n == 2):
-            combos = r.sample(combos, 30 if ctx.quick else 200)
+        if ctx.quick and n >= 2:
+            combos = r.sample(combos, 30)
         for combo in combos:
             add("subjectAlternativeName", [c[0] for c in combo], {"names": [c[1] for c in combo]}, crit=crits[len(out) % 3])
     # certificatePolicies: 1..3 policies x qualifier shapes
@@ -79,7 +79,7 @@ def cases(ctx):
         q, e = qual(sh)
         add("certificatePolicies", [{"oid": oids[0], "qualifiers": [q]}], {"policies": [{"oid": oid_arcs(oids[0]), "quals": [e]}]}, klass="certificatePolicies/%s" % (sh,))
     add("certificatePolicies", [{"oid": oids[1]}], {"policies": [{"oid": oid_arcs(oids[1]), "quals": []}]})
-    for i in range(20 if ctx.quick else 300):
+    for i in range(20 if ctx.quick else 5000):
         pols, exp = [], []
         for k in range(r.randrange(1, 4)):
             qs = [qual(r.choice(shapes)) for _ in range(r.randrange(0, 3))]
@@ -100,7 +100,7 @@ def cases(ctx):
     for n in range(1, len(pool) + 1):
         sel = pool[:n]
         add("extendedKeyUsage", sel, {"usages": [{"name": u if u in EKU_NAMES else "", "oid": [] if u in EKU_NAMES else oid_arcs(u)} for u in sel]})
-    for i in range(20 if ctx.quick else 200):
+    for i in range(20 if ctx.quick else 3000):
         sel = r.sample(pool, r.randrange(1, 6))
         add("extendedKeyUsage", sel, {"usages": [{"name": u if u in EKU_NAMES else "", "oid": [] if u in EKU_NAMES else oid_arcs(u)} for u in sel]}, crit=crits[i % 3])
     # key identifiers
